@@ -3,7 +3,7 @@ Driver for C06.  Request line:
   v=<10|20|30|31> op=<add|sub|mul|div|idiv|mod|neg|pos|abs|floor|ceiling|round1|round|rhe> a=<val> b=<val|_> p=<int|_>
 values:  i:<int>   d:<coefficient>:<scale>   D:<num>/<den> | D:NaN | D:INF | D:-INF | D:0 | D:-0   F:… (xs:float)
          S:<code points separated by '.'>  (a string operand, XPath 1.0 parser only; `S:` = empty string)
-Answer:  model=<res> spec=<res> specI=<res|_> flags=<comma separated | _>
+Answer:  model=<res> spec=<res> specI=<res|_> flags=<comma separated | _> mraw=<typed model result>
 results: i:<n>  d:<num>/<den>  D:<num>/<den>|D:NaN|…  F:…  ERR:<code>;  for v=10: N:<num>/<den>|N:NaN|… (the
          XPath 1.0 number the result denotes, type tag dropped)
 spec   = F&O result with the decimal context (28 digits, half-even) applied to xs:decimal results
@@ -115,7 +115,7 @@ def answer10 (R : Rounding) (fs : List (String × String)) : String :=
       let fl := flagsStr [
         (trigF06v_bin R op a b, "F06v"), (trigF06s R a || trigF06s R b, "F06s"),
         (trigF06x R .v10 op (conv10 R a) (conv10 R b), "F06x")]
-      s!"model={showN (m.map absNum)} spec={showN s} specI=_ flags={fl}"
+      s!"model={showN (m.map absNum)} spec={showN s} specI=_ flags={fl} mraw={showRes (m.map absNum)}"
     | some _, none => "bad-b"
     | none, _ =>
       match unOp? opS 0 with
@@ -125,7 +125,7 @@ def answer10 (R : Rounding) (fs : List (String × String)) : String :=
         let s := spec10Un R op (absOpnd a)
         let fl := flagsStr [(trigF06v_un R op a, "F06v"), (trigF06s R a, "F06s"),
           (trigF06p op (toDbl10 R (conv10 R a)), "F06p")]
-        s!"model={showN (.ok (absNum m))} spec={showN (.ok s)} specI=_ flags={fl}"
+        s!"model={showN (.ok (absNum m))} spec={showN (.ok s)} specI=_ flags={fl} mraw={showX (absNum m)}"
 
 def answer (line : String) : String :=
   let fs := fields line
@@ -148,7 +148,7 @@ def answer (line : String) : String :=
           (trigF06c_bin op a b, "F06c"), (trigF06t R v op a b, "F06t"), (trigF06x R v op a b, "F06x"),
           (trigQuot28 op a b, "idef"), (trigBig R op a b, "big"), (trigOvf R a b, "ovf"),
           (floatTyped a b && floatHyp R op a b, "fhyp")]
-        s!"model={showRes (m.map absNum)} spec={showRes s} specI={si} flags={fl}"
+        s!"model={showRes (m.map absNum)} spec={showRes s} specI={si} flags={fl} mraw={showRes (m.map absNum)}"
       | some _, none => "bad-b"
       | none, _ =>
         match unOp? opS p with
@@ -160,6 +160,6 @@ def answer (line : String) : String :=
           let s := match op with | .neg | .pos | .abs => ctxDec s0 | _ => s0
           let si := if isFlt a then showX (clampX (specUn (implR R) op (absNum a))) else "_"
           let fl := flagsStr [(trigF06c_un op a, "F06c"), (trigF06p op a, "F06p"), (isFlt a, "fhyp")]
-          s!"model={showX (absNum m)} spec={showX s} specI={si} flags={fl}"
+          s!"model={showX (absNum m)} spec={showX s} specI={si} flags={fl} mraw={showX (absNum m)}"
 
 def main : IO Unit := mainLoop answer
